@@ -505,7 +505,18 @@ def _run_rerun(case, ctx):
     ctx.tick()
     got, eg = attempt(lambda: _rerun_fit(X, alg, shape, case.get("gseed", 0)))
     ctx.tick()
-    want, ew = attempt(lambda: _rerun_fit(build_data(b, holder), alg, shape, case.get("gseed", 0)))
+    # the fresh object stores exactly what the edited one stores now (same entries in the same stored order: the line
+    # searches of pdnr / pqnr amplify the rounding of a different summation order, which is not what is tested here)
+    if is_sparse(holder):
+        import pyttb as ttb
+        fresh = ttb.sptensor(X.subs.copy(), X.vals.copy(), X.shape) if X.nnz else ttb.sptensor(shape=X.shape)
+    else:
+        fresh = build_data(b, holder)
+    if not np.array_equal(np.asarray(O.dense_of(fresh), dtype=float), b):
+        ctx.fail("sptensor.__setitem__" if is_sparse(holder) else "tensor.__setitem__", "wrong_value",
+                 "the edited data object does not hold the edited counts", variant="rerun:" + alg, case=case)
+        return
+    want, ew = attempt(lambda: _rerun_fit(fresh, alg, shape, case.get("gseed", 0)))
     if ew is not None:
         # the fresh fit itself fails (e.g. the recorded pqnr abort): nothing to compare the history with
         ctx.inadm()
